@@ -7,13 +7,17 @@ for every indentation scheme made of blank strings, any depth and width); (ii) t
 that decides whether the parser strips: no formatter and formatters whose normalize flag
 includes WS_TAGS strip, WS_NONE and WS_TEXT do not, `-w` maps to WS_NONE and its absence to
 WS_BOTH (`C14_flag_table`); (iii) without stripping the re-indented document is a different
-tree (`C14_nostrip_differs`).  With C03 this gives the "exactly when" of the property at
-model level; on the real code the property is decided per run by unit U10 / the C14 oracle
-over the formatter x flag table.  libxml2's blank-node heuristic itself is modelled
+tree (`C14_nostrip_differs`); (iv) composed with C03 at model level: the two parses of a document and of its
+re-indented version, made with a stripping parser, get the empty script in all three match modes
+(`C14_stripped_reindent_empty_script`), and made with a non-stripping parser they get a non-empty one whenever the
+indentation of the root element actually changed (`C14_unstripped_reindent_nonempty_script`).  On the real code the
+property is decided per run by unit U10 / the C14 oracle over the formatter x flag table; the XML formatter's
+markup-free output is part of that oracle only.  libxml2's blank-node heuristic itself is modelled
 (Model/Blank.lean) and compared with the parser on every run.
 -/
 import XmlDiffModel.Proofs.Blank
 import XmlDiffModel.Model.Api
+import XmlDiffModel.Props.C01
 
 namespace XmlDiffModel
 
@@ -42,6 +46,74 @@ theorem C14_nostrip_differs (ws : Nat → Str) (i : Nat) (p : Payload) (k : Tree
   apply h
   have := congrArg Payload.text e.1
   simpa using this.symm
+
+/-! ### composition with C03 -/
+
+open Tree Chw in
+mutual
+  theorem beqVal_docEq (ign : List Str) (a b c : Tree) (h1 : Tree.beqVal a c = true) (h2 : Tree.beqVal b c = true) :
+      docEq ign a b := by
+    match a, b, c with
+    | .node i p ks, .node j q ls, .node k r ms =>
+      simp only [Tree.beqVal, Bool.and_eq_true, beq_iff_eq] at h1 h2
+      simp only [docEq]
+      refine ⟨?_, beqValL_docEqL ign ks ls ms h1.2 h2.2⟩
+      rw [h1.1, h2.1]
+      exact ⟨rfl, rfl, rfl, rfl, fun _ _ => rfl⟩
+  theorem beqValL_docEqL (ign : List Str) (as bs cs : List Tree) (h1 : Tree.beqValL as cs = true)
+      (h2 : Tree.beqValL bs cs = true) : docEqL ign as bs := by
+    match as, bs, cs with
+    | [], [], [] => simp [docEqL]
+    | [], _ :: _, [] => simp [Tree.beqValL] at h2
+    | _ :: _, _, [] => simp [Tree.beqValL] at h1
+    | [], _, _ :: _ => simp [Tree.beqValL] at h1
+    | _ :: _, [], _ :: _ => simp [Tree.beqValL] at h2
+    | a :: as, b :: bs, c :: cs =>
+      simp only [Tree.beqValL, Bool.and_eq_true] at h1 h2
+      simp only [docEqL]
+      exact ⟨beqVal_docEq ign a b c h1.1 h2.1, beqValL_docEqL ign as bs cs h1.2 h2.2⟩
+end
+
+/-- With a blank-stripping parser: `L` is the parse of the re-indented document, `R` the parse of the original
+(any node identities), the document has elements with either children or text; the differ returns the empty script,
+in the default mode, with `best_match` and with `fast_match` (oracle hypotheses as in C03). -/
+theorem C14_stripped_reindent_empty_script (qn : QName) (cfg : Cfg) (sim : Sim) (fresh : Nat)
+    (ws : Nat → Str) (hws : ∀ d, isBlank (some (ws d)) = true) (T L R : Tree) (hsep : SepContent T = true)
+    (hLv : Tree.beqVal L (setTail none (stripBlank (reindent ws 0 T))) = true)
+    (hRv : Tree.beqVal R (setTail none (stripBlank T)) = true)
+    (hF0 : 0 < cfg.F) (hF1 : cfg.F ≤ Score.one) (hL : L.WF) (hR : R.WF)
+    (hs : Chw.docEq cfg.ignored L R → EqM.SimOK sim (postNodes L).dropLast (postNodes R).dropLast)
+    (hf : Chw.docEq cfg.ignored L R → cfg.fastMatch = true →
+      EqM.FastOK cfg sim (postNodes L).dropLast (postNodes R).dropLast) :
+    scriptGen qn cfg L R (matchNodes cfg sim L R) fresh = .ok ([], L) := by
+  rw [C14_strip_reindent ws hws T hsep] at hLv
+  have heq := beqVal_docEq cfg.ignored L R _ hLv hRv
+  exact C03_equal_documents_empty_script qn cfg L R fresh sim hF0 hF1 hL hR heq (hs heq) (hf heq)
+
+/-- Without stripping (`WS_NONE`, `--keep-whitespace`): if the root element has children and its indentation
+changed, the script is not empty (C01 domain hypotheses as in C03). -/
+theorem C14_unstripped_reindent_nonempty_script (qn : QName) (cfg : Cfg) (fresh : Nat) (ws : Nat → Str)
+    (i : Nat) (p : Payload) (k : Tree) (rest : List Tree) (L R : Tree) (M : List (Nat × Nat))
+    (script : List Action) (final : Tree)
+    (hchg : p.text ≠ some (ws 1))
+    (hLv : Tree.beqVal L (reindent ws 0 (.node i p (k :: rest))) = true)
+    (hRv : Tree.beqVal R (.node i p (k :: rest)) = true)
+    (hL : L.WF) (hR : R.WF) (hdisj : ∀ i ∈ Tree.ids L, i ∉ Tree.ids R)
+    (hfL : ∀ i ∈ Tree.ids L, i < fresh) (hfR : ∀ i ∈ Tree.ids R, i < fresh) (hM : Chw.GoodMatching L R M)
+    (hA : ∀ x ∈ Tree.bfs R, (keys x.payload.attrs).Nodup)
+    (hC : ∀ x ∈ Tree.bfs R, x.payload.kind = .comment → x.payload.tag = [])
+    (h : scriptGen qn cfg L R M fresh = .ok (script, final)) : script ≠ [] := by
+  apply C03_different_documents_nonempty_script qn cfg L R fresh script final M hL hR hdisj hfL hfR hM hA hC h
+  intro hd
+  cases L with
+  | node li lp lks =>
+    cases R with
+    | node ri rp rks =>
+      simp only [reindent, Tree.beqVal, Bool.and_eq_true, beq_iff_eq] at hLv hRv
+      simp only [Chw.docEq] at hd
+      have := hd.1.2.2.1
+      rw [hLv.1, hRv.1] at this
+      exact hchg this.symm
 
 example : SepContent (.node 0 ⟨.elem, "a".toList, [], some " ".toList, none⟩
     [.node 1 ⟨.elem, "b".toList, [], some "x".toList, some "\n".toList⟩ []]) = true := by decide
